@@ -263,6 +263,11 @@ def shards(tier, seed):
         for cost, msl in (("L2", 1), ("L2", 2), ("GaussianVar", 2)):
             if n >= 2 * msl:
                 sh.append(("data2", (n, cost, msl, 0.05), 0, 4 ** n))
+    # medium-length series: all placements of <= 2 (3) changes, larger min_segment_length
+    for n in (12, 16, 20) if tier == "quick" else (12, 16, 20, 24, 32):
+        for cost, msl, scale in (("L2", 1, 1.0), ("L2", 4, 0.5), ("L2", 5, 0.05), ("GaussianVar", 4, 0.5), ("GaussianVar", 6, 0.2)):
+            if n >= 2 * msl:
+                sh.append(("long", (n, cost, msl, scale), 0, 10 ** 9))
     # fitted on a shorter prefix, predicting the full series (penalty read back from the fitted detector)
     for n in (6, 7) if tier == "quick" else (6, 7, 8):
         for cost, msl, k in (("L2", 1, 2), ("L2", 2, 4), ("GaussianVar", 2, n - 1)):
@@ -277,6 +282,7 @@ def bounds(tier, seed):
         "table_configs(n,msl,pen,p,variant,slack_alphabet,max_deviations)": [list(map(str, c)) for c in table_configs(tier)],
         "data_configs": sorted({str((c[0], c[1], c[2], c[3])) for c in data_configs(tier, seed)})[:60],
         "penalty_scales_data": [0.0, 0.05, 1.0],
+        "medium_length": "piecewise-constant series with a deterministic texture, n in (12,16,20) quick / up to 32: all placements of <= 2 changes (and a third of the admissible 3-change placements for msl >= 4); msl in (1,4,5,6)",
         "two_column_data": "all 2-column matrices over (0,3), n<=5 (quick)/6, L2 (msl 1,2) and GaussianVar (msl 2), scale 0.05",
     }
 
@@ -303,6 +309,13 @@ def run_shard(shard):
                 s2 = allv[partner(i, len(allv))]
                 case["slacks2"] = list(s2)
             check_case(acc, case)
+    elif kind == "long":
+        n, cost, msl, scale = cfg
+        for cps, xs in itertools.islice(util.structured_series(n, 2, (0.0, 3.0)), lo, hi):
+            check_case(acc, {"mode": "data", "x": list(xs), "cost": cost, "msl": msl, "scale": scale})
+        for cps, xs in util.structured_series(n, 3, (0.0, 3.0, -2.0)) if msl >= 4 else ():
+            if len(cps) == 3 and all(b - a >= msl for a, b in zip((0,) + cps, cps + (n,))) and (cps[0] + cps[2]) % 3 == 0:
+                check_case(acc, {"mode": "data", "x": list(xs), "cost": cost, "msl": msl, "scale": scale})
     elif kind == "datafit":
         n, cost, msl, scale, k = cfg
         for xs in itertools.islice(itertools.product((0, 1, 3), repeat=n), lo, hi):
